@@ -44,7 +44,11 @@ Headline theorems (proved in the `Lemmas/*Rounding.lean` files of this namespace
   - `acf_abs_le`            |acf(ts,k)| ≤ 1 + γ_{(n−k)+n+9}
   - `acf_zero_error`        |acf(ts,0) − 1| ≤ γ_{2n+9};   `acf_zero_error_idem`  ≤ γ_4 (idempotent rounding)
 
-This file: numeric corollaries at `u = 2⁻⁵³` (`f64_*_note`) and the non-vacuity examples
+This file: numeric corollaries at `u = 2⁻⁵³` — `f64_gamma_note`, `f64_acovf_note` are pure evaluations of `γ`
+constants; `stdmodel_*_note` are theorems of the IDEALISED standard model at `u = 2⁻⁵³`, `uf = 2⁻⁵²` (they say
+nothing about IEEE binary64 where an operation or `exp` under/overflows: at `f64`, `logistic(−710) = 0` and
+`softmax [0,−800,10⁴] = [0,0,1]`; see `Rounding3U.logistic_range_ufl`, `softmax_sum_error_ufl` for the honest
+underflow-aware variants) — and the non-vacuity examples
 (`namespace Examples`).
 -/
 namespace Cv.Rounding3
@@ -72,10 +76,10 @@ theorem f64_gamma_note (M : FlModel) (hu : M.u = 1 / 2 ^ 53) (l : Nat) :
     refine ⟨hlt, le_trans (M.γ_mono hl h4) ?_⟩
     unfold FlModel.γ; rw [hu]; norm_num
 
-/-- **`matmul` at `f64`**, inner dimension `l ≤ 64` (the range of the C05 generator): every entry of the
+/-- **`matmul` in a standard model with `u = 2⁻⁵³`** (PROVISO: a theorem of the idealised standard model (`fl(x) = x(1+δ)` for EVERY operation, library functions of relative error `≤ uf` for EVERY argument), instantiated at `u = 2⁻⁵³`; it is a statement about IEEE binary64 only where no operation overflows or underflows (for `exp`: arguments in `[−708.39, 709.78]`).), inner dimension `l ≤ 64` (the range of the C05 generator): every entry of the
 computed product is within `7.2·10⁻¹⁵·(|op(A)||op(B)|)[i,j]` of the exact one, barring
 overflow/underflow (the trusted link). -/
-theorem f64_matmul_note (M : FlModel) (hu : M.u = 1 / 2 ^ 53) (hid : M.Idem)
+theorem stdmodel_matmul_note (M : FlModel) (hu : M.u = 1 / 2 ^ 53) (hid : M.Idem)
     (a b : List (Fl M)) (ra ca rb cb : Nat) (ta tb : Bool)
     (ha : a.length = ra * ca) (hb : b.length = rb * cb) (hra : 0 < ra) (hrb : 0 < rb)
     (hin : (if ta then ra else ca) = (if tb then cb else rb)) (hl : (if ta then ra else ca) ≤ 64) :
@@ -89,10 +93,10 @@ theorem f64_matmul_note (M : FlModel) (hu : M.u = 1 / 2 ^ 53) (hid : M.Idem)
   exact ⟨c, h1, fun i j hi hj => le_trans (h3 i j hi hj)
     (mul_le_mul_of_nonneg_right hγ (absCell_nonneg _ _ _ _ _ _ _ _ _))⟩
 
-/-- **`logsumexp` at `f64`** with a libm accurate to 1 ulp (`uf = 2⁻⁵²`): for `n ≤ 10⁴` values of
+/-- **`logsumexp` in a standard model with `u = 2⁻⁵³`** (PROVISO: a theorem of the idealised standard model (`fl(x) = x(1+δ)` for EVERY operation, library functions of relative error `≤ uf` for EVERY argument), instantiated at `u = 2⁻⁵³`; it is a statement about IEEE binary64 only where no operation overflows or underflows (for `exp`: arguments in `[−708.39, 709.78]`).) with a libm accurate to 1 ulp (`uf = 2⁻⁵²`): for `n ≤ 10⁴` values of
 spread `max − min ≤ 700` (beyond `≈ 745` the smallest shifted exponential underflows):
 `|ŝ − log Σ exp xᵢ| ≤ 1.2·10⁻¹² + 2.3·10⁻¹⁶·log n + 1.2·10⁻¹⁶·|log Σ exp xᵢ|`. -/
-theorem f64_logsumexp_note (M : FlModel) [ExpLnStd M] (hu : M.u = 1 / 2 ^ 53)
+theorem stdmodel_logsumexp_note (M : FlModel) [ExpLnStd M] (hu : M.u = 1 / 2 ^ 53)
     (hf : uF M = 1 / 2 ^ 52) (isNaN : Fl M → Bool) (nan : Fl M) (hnan : isNaN nan = true)
     (x : List (Fl M)) (hne : x ≠ []) (hfin : ∀ a ∈ x, isNaN a = false) (hn : x.length ≤ 10000)
     (D : ℝ) (hD700 : D ≤ 700) (hD : ∀ a ∈ x, ∀ b ∈ x, |a.val - b.val| ≤ D) :
@@ -131,17 +135,26 @@ theorem f64_logsumexp_note (M : FlModel) [ExpLnStd M] (hu : M.u = 1 / 2 ^ 53)
   have : (1.0000001 : ℝ) * 1.199e-12 ≤ 1.2e-12 := by norm_num
   linarith
 
-/-- **`softmax` at `f64`**: for `n ≤ 999` inputs the computed probabilities are positive and their exact
-sum differs from `1` by at most `1.12·10⁻¹³`. -/
-theorem f64_softmax_note (M : FlModel) [ExpLnStd M] [MaxBot (Fl M)] (hu : M.u = 1 / 2 ^ 53)
-    (x : List (Fl M)) (hne : x ≠ []) (hn : x.length ≤ 999) :
+/-- **`softmax` in a standard model with `u = 2⁻⁵³`**: for `1 ≤ n ≤ 1000` inputs the computed probabilities are
+positive and their exact sum differs from `1` by at most `1.12·10⁻¹³`.  PROVISO: a theorem of the idealised standard model (`fl(x) = x(1+δ)` for EVERY operation, library functions of relative error `≤ uf` for EVERY argument), instantiated at `u = 2⁻⁵³`; it is a statement about IEEE binary64 only where no operation overflows or underflows (for `exp`: arguments in `[−708.39, 709.78]`).  At IEEE binary64 entries whose
+shifted exponential underflows are exactly `0` (`≥ 0`, not `> 0`): `Rounding3U.softmax_sum_error_ufl`. -/
+theorem stdmodel_softmax_note (M : FlModel) [ExpLnStd M] [MaxBot (Fl M)] (hu : M.u = 1 / 2 ^ 53)
+    (x : List (Fl M)) (hne : x ≠ []) (hn : x.length ≤ 1000) :
     (∀ y ∈ softmax x, 0 < y.val) ∧ |(vals (softmax x)).sum - 1| ≤ 1.12e-13 := by
-  obtain ⟨hlt, hγ⟩ := (f64_gamma_note M hu (x.length + 1)).2 (by omega)
+  have h1001 : ((1001 : Nat) : ℝ) * M.u < 1 := by rw [hu]; norm_num
+  have hle : x.length + 1 ≤ 1001 := by omega
+  have hlt : ((x.length + 1 : Nat) : ℝ) * M.u < 1 :=
+    lt_of_le_of_lt (mul_le_mul_of_nonneg_right (Nat.cast_le.mpr hle) M.u_nonneg) h1001
+  have hγ : M.γ (x.length + 1) ≤ 1.12e-13 := by
+    refine le_trans (M.γ_mono hle h1001) ?_
+    unfold FlModel.γ; rw [hu]; norm_num
   obtain ⟨_, h2, h3⟩ := softmax_sum_error x hne hlt
   exact ⟨h2, le_trans h3 hγ⟩
 
-/-- **`logistic` at `f64`** with `uf = 2⁻⁵²`: relative error at most `4.5·10⁻¹⁶` for every argument. -/
-theorem f64_logistic_note (M : FlModel) [ExpLnStd M] (hu : M.u = 1 / 2 ^ 53)
+/-- **`logistic` in a standard model with `u = 2⁻⁵³`, `uf = 2⁻⁵²`**: relative error at most `4.5·10⁻¹⁶` for every
+argument OF THE MODEL.  PROVISO: a theorem of the idealised standard model (`fl(x) = x(1+δ)` for EVERY operation, library functions of relative error `≤ uf` for EVERY argument), instantiated at `u = 2⁻⁵³`; it is a statement about IEEE binary64 only where no operation overflows or underflows (for `exp`: arguments in `[−708.39, 709.78]`).  At IEEE binary64 `logistic(x) = 0` for `x ≤ −709.79` (relative error 1):
+only `0 ≤ logistic ≤ 1` survives there (`Rounding3U.logistic_range_ufl`). -/
+theorem stdmodel_logistic_note (M : FlModel) [ExpLnStd M] (hu : M.u = 1 / 2 ^ 53)
     (hf : uF M = 1 / 2 ^ 52) (x : Fl M) :
     |(logistic x).val - sigma x.val| ≤ 4.5e-16 * sigma x.val := by
   have h2 : ((2 : Nat) : ℝ) * M.u < 1 := by rw [hu]; norm_num
@@ -159,9 +172,9 @@ theorem f64_acovf_note (M : FlModel) (hu : M.u = 1 / 2 ^ 53) (n k : Nat) (hn : n
   ⟨(f64_instance_note M hu (n + 6) (by omega)).1, (f64_instance_note M hu (n - k + 6) (by omega)).2,
     (f64_instance_note M hu (n + 2) (by omega)).2⟩
 
-/-- **`acf` at `f64`** (idempotent rounding): for every non-constant series `|acf(ts,0) − 1| ≤ 4.5·10⁻¹⁶`,
+/-- **`acf` in a standard model with `u = 2⁻⁵³`** (idempotent rounding; PROVISO: a theorem of the idealised standard model (`fl(x) = x(1+δ)` for EVERY operation, library functions of relative error `≤ uf` for EVERY argument), instantiated at `u = 2⁻⁵³`; it is a statement about IEEE binary64 only where no operation overflows or underflows (for `exp`: arguments in `[−708.39, 709.78]`).): for every non-constant series `|acf(ts,0) − 1| ≤ 4.5·10⁻¹⁶`,
 and for `n ≤ 4995`, `|acf(ts,k)| ≤ 1 + 1.12·10⁻¹²` at every lag. -/
-theorem f64_acf_note (M : FlModel) (hu : M.u = 1 / 2 ^ 53) (hid : M.Idem) (ts : List (Fl M))
+theorem stdmodel_acf_note (M : FlModel) (hu : M.u = 1 / 2 ^ 53) (hid : M.Idem) (ts : List (Fl M))
     (a b : Fl M) (ha : a ∈ ts) (hb : b ∈ ts) (hab : a.val ≠ b.val) :
     |(TS.acf ts 0).val - 1| ≤ 4.5e-16 ∧
       (ts.length ≤ 4995 → ∀ k : Int, |(TS.acf ts k).val| ≤ 1 + 1.12e-12) := by
@@ -175,6 +188,26 @@ theorem f64_acf_note (M : FlModel) (hu : M.u = 1 / 2 ^ 53) (hid : M.Idem) (ts : 
     obtain ⟨hlt, hγ⟩ := f64_instance_note M hu (ts.length - k.natAbs + ts.length + 9) (by omega)
     have := acf_abs_le ts k hn hQ hlt
     linarith
+
+/-- deprecated alias of `stdmodel_matmul_note` (the `f64_` prefix wrongly suggested a statement about IEEE binary64; kept only
+until the `REQUIRED_THEOREMS` wiring is updated) -/
+alias f64_matmul_note := stdmodel_matmul_note
+
+/-- deprecated alias of `stdmodel_logsumexp_note` (the `f64_` prefix wrongly suggested a statement about IEEE binary64; kept only
+until the `REQUIRED_THEOREMS` wiring is updated) -/
+alias f64_logsumexp_note := stdmodel_logsumexp_note
+
+/-- deprecated alias of `stdmodel_softmax_note` (the `f64_` prefix wrongly suggested a statement about IEEE binary64; kept only
+until the `REQUIRED_THEOREMS` wiring is updated) -/
+alias f64_softmax_note := stdmodel_softmax_note
+
+/-- deprecated alias of `stdmodel_logistic_note` (the `f64_` prefix wrongly suggested a statement about IEEE binary64; kept only
+until the `REQUIRED_THEOREMS` wiring is updated) -/
+alias f64_logistic_note := stdmodel_logistic_note
+
+/-- deprecated alias of `stdmodel_acf_note` (the `f64_` prefix wrongly suggested a statement about IEEE binary64; kept only
+until the `REQUIRED_THEOREMS` wiring is updated) -/
+alias f64_acf_note := stdmodel_acf_note
 
 /-! ### Non-vacuity: concrete models and concrete inputs -/
 
@@ -497,3 +530,42 @@ example : ∃ (M : FlModel) (_ : ExpLnStd M), M.u = 1 / 2 ^ 53 ∧ uF M = 1 / 2 
 end Examples
 
 end Cv.Rounding3
+
+/-! ### Non-vacuity of the underflow-aware variants (`Cv.Rounding3U`) -/
+
+namespace Cv.Rounding3U.Examples
+open Cv Cv.FlModel Cv.Rounding Cv.Rounding3U
+open Cv.Rounding3.Examples (Mstep Mstep_mono Mstep_one)
+
+/-- a libm that flushes `exp` to zero below `−745` (as IEEE binary64 does), on the monotone 1 % model -/
+noncomputable local instance : ExpLnUfl Mstep := ExpLnUfl.flush Mstep (-745) (by norm_num)
+
+/-- `logistic_range_ufl`: hypotheses hold; at `x = 800` the exponential `exp(−800)` underflows to `0` and the
+computed logistic is exactly `1` -/
+example : (0 ≤ (logistic (⟨800⟩ : Fl Mstep)).val ∧ (logistic (⟨800⟩ : Fl Mstep)).val ≤ 1) ∧
+    (logistic (⟨800⟩ : Fl Mstep)).val = 1 := by
+  refine ⟨logistic_range_ufl Mstep_mono Mstep_one _, ?_⟩
+  show Mstep.rnd (1 / Mstep.rnd (1 + (if (-(800 : ℝ)) < -745 then 0 else Real.exp (-(800 : ℝ))))) = 1
+  rw [if_pos (by norm_num), add_zero, Mstep_one, div_one, Mstep_one]
+
+noncomputable local instance : ExpLnUfl FlModel.exact := ExpLnUfl.flush FlModel.exact (-745) (by norm_num)
+
+/-- **underflow really makes the RBF value `0`** (so `0 < k̂` cannot be a theorem about IEEE arithmetic):
+`σ² = 1`, `ℓ = 1/100`, `x − y = 2000` gives the exponent `−2·10¹⁰ < −745`; `rbf_range_ufl` still applies -/
+example : ((⟨⟨1⟩, ⟨1 / 100⟩⟩ : Gp.RBF (Fl FlModel.exact)).fwd ⟨1000⟩ ⟨-1000⟩).val = 0 ∧
+    0 ≤ ((⟨⟨1⟩, ⟨1 / 100⟩⟩ : Gp.RBF (Fl FlModel.exact)).fwd ⟨1000⟩ ⟨-1000⟩).val := by
+  refine ⟨?_, (rbf_range_ufl (⟨⟨1⟩, ⟨1 / 100⟩⟩ : Gp.RBF (Fl FlModel.exact)) ⟨1000⟩ ⟨-1000⟩ (by norm_num)).1⟩
+  have harg : ((-(powi ((⟨1000⟩ : Fl FlModel.exact) - ⟨-1000⟩) 2)) /
+      (⟨⟨1⟩, ⟨1 / 100⟩⟩ : Gp.RBF (Fl FlModel.exact)).denom).val = -20000000000 := by
+    show FlModel.exact.rnd (-(FlModel.exact.rnd (1 * FlModel.exact.rnd
+      (FlModel.exact.rnd (1000 - -1000) * FlModel.exact.rnd (1000 - -1000)))) /
+      FlModel.exact.rnd (FlModel.exact.rnd ((2 : Nat) : ℝ) * FlModel.exact.rnd (1 * FlModel.exact.rnd
+        ((1 / 100 : ℝ) * (1 / 100))))) = _
+    simp only [FlModel.exact, id]
+    norm_num
+  rw [rbf_unfold_u]
+  show FlModel.exact.rnd ((if _ < (-745 : ℝ) then 0 else Real.exp _) * 1) = 0
+  rw [harg, if_pos (by norm_num)]
+  simp [FlModel.exact]
+
+end Cv.Rounding3U.Examples
